@@ -173,7 +173,7 @@ class PermuteGround(_Hash):
     skip_facets = "CT"        # satisfaction and trace shape are carried by the per-round contract (Permute); here: values only
 
     def configs(self, tier):
-        return [dict(params=k, input=inp) for k in ("zkinterface", "zkifbellman") for inp in ("01234", "big")]
+        return [dict(params=k, input=inp) for k in ("zkinterface", "zkifbellman", "zkifbulletproofs") for inp in ("01234", "big")]
 
     def world_setup(self, w):
         from .backend_c import _stub_world
